@@ -23,7 +23,8 @@
 (*                           node (scaled integer, -1 none)]               *)
 (* a comment is [m |-> BOOLEAN, k |-> STRING, v |-> STRING]: plain text k, *)
 (* or (m) the metadata comment [&k=v].                                     *)
-(* a CHARACTERS block is [kind |-> "chars", title |-> STRING,              *)
+(* a CHARACTERS block is [kind |-> "chars", title |-> STRING, type |->     *)
+(*   "dna" | "standard" (the data type of the block),                      *)
 (*   rows |-> Seq([lab, seq])] (taxon label and its row of symbols); a     *)
 (* SETS block is [kind |-> "sets", link, charsets |-> Seq([name, spec])].  *)
 (* Newick = one block, statements without names; NeXML = the id-linked     *)
@@ -160,9 +161,15 @@ RootingStates(q, rootedOf(_)) == {rootedOf(q[i]) : i \in 1..Len(q)}
 SelTreeArray(colls, t, rootedOf(_)) ==
     LET all == Flatten(colls)  q == From(all, Min({Given(t, 0), Len(all)})) IN
     IF Cardinality(RootingStates(q, rootedOf)) <= 1 THEN Ok(q) ELSE Err("MixedRootingError")
-\* CharacterMatrix.get(matrix_offset): the m-th matrix of the data set
-SelMatrix(mats, m) == IF InRange(Given(m, 0), Len(mats)) THEN Ok(<<mats[PyIdx(Given(m, 0), Len(mats)) + 1]>>)
-                      ELSE Err(IF mats = <<>> THEN "NoMatrix" ELSE "IndexError")
+\* <Type>CharacterMatrix.get(matrix_offset): the m-th matrix of the data set - matrix_offset counts the
+\* character blocks of the source whatever their type - or the documented errors: out of range, or the
+\* block at that offset is not of the class's data type
+SelMatrix(mats, typeOf(_), cls, m) ==
+    IF mats = <<>> THEN Err("NoMatrix")
+    ELSE IF ~InRange(Given(m, 0), Len(mats)) THEN Err("IndexError")
+    ELSE LET x == mats[PyIdx(Given(m, 0), Len(mats)) + 1] IN
+         IF typeOf(x) # cls THEN Err("ValueError") ELSE Ok(<<x>>)
+MatrixClasses == {"dna", "standard"}
 
 \* ------------------------------------------------------------------ the definitions agree pairwise (model level)
 IsTailOf(a, b) == Len(a) <= Len(b) /\ a = From(b, Len(b) - Len(a))
@@ -238,10 +245,10 @@ SameTaxaWhenShared(doc, fmt) ==
 
 \* ------------------------------------------------------------------ matrices, source dispatch
 MatricesAgree(doc) ==
-    LET M == CharsBlocks(doc) IN
-    \A m \in Offs(Len(M)) \cup {NoOff} :
-       LET s == SelMatrix(M, m) IN
-       IF InRange(Given(m, 0), Len(M)) THEN s = Ok(<<M[PyIdx(Given(m, 0), Len(M)) + 1]>>) ELSE s.err # ""
+    LET M == CharsBlocks(doc)  typeOf(b) == b.type IN
+    \A cls \in MatrixClasses : \A m \in Offs(Len(M)) \cup {NoOff} :
+       LET s == SelMatrix(M, typeOf, cls, m)  k == Given(m, 0) IN
+       IF InRange(k, Len(M)) /\ M[PyIdx(k, Len(M)) + 1].type = cls THEN s = Ok(<<M[PyIdx(k, Len(M)) + 1]>>) ELSE s.err # ""
 \* data= / file= / path= all end in _parse_and_create_from_stream / _parse_and_add_from_stream on a
 \* stream with the same text: the selection does not depend on the source kind
 Sources == {"data", "file", "path"}
